@@ -2,6 +2,7 @@
 from __future__ import annotations
 
 import ast
+import copy
 
 import sympy as sp
 from sympy import Symbol, Function, Integer
@@ -23,55 +24,233 @@ def geometry_env():
     return dict(r=r, dz=dz, R0=R0, dt=dt, v=v, iota=iota)
 
 
+def _straight_helper(h):
+    """(statements, return value) of a method whose body is straight-line code (assignments, asserts, `with` blocks) ending in one
+    `return`; None otherwise"""
+    out = []
+
+    def take(stmts):
+        """value of the trailing return / None (no return met yet) / False (outside the fragment)"""
+        for k, st in enumerate(stmts):
+            if isinstance(st, ast.Expr) and isinstance(st.value, ast.Constant):
+                continue
+            if isinstance(st, (ast.Assign, ast.AugAssign, ast.Assert)):
+                out.append(st)
+            elif isinstance(st, ast.With):
+                r = take(st.body)
+                if r is False:
+                    return False
+                if r is not None:
+                    return r if k == len(stmts) - 1 else False
+            elif isinstance(st, ast.Return) and k == len(stmts) - 1 and st.value is not None:
+                return st.value
+            else:
+                return False
+        return None
+    ret = take(h.body)
+    if ret is None or ret is False:
+        return None
+    return out, ret
+
+
+def lagrange_statements(chk, fn):
+    """the assignments of _getLagrangePts in order, with `with` blocks opened and calls `target = self.helper(args)` /
+    `Class.helper(args)` of straight-line helper methods written out (parameters bound to the arguments; helper locals keep their
+    names unless the caller uses the same name)"""
+    mod = chk.mod(U.ADV)
+    methods = mod.methods(CLS)
+    caller_names = {n.id for n in ast.walk(fn) if isinstance(n, ast.Name)} | {a.arg for a in fn.args.args}
+    out = []
+    count = [0]
+
+    def rename(node, m):
+        node = copy.deepcopy(node)
+        for x in ast.walk(node):
+            if isinstance(x, ast.Name) and x.id in m:
+                x.id = m[x.id]
+        return node
+
+    def visit(stmts, depth=0):
+        for st in stmts:
+            if isinstance(st, ast.With):
+                visit(st.body, depth)
+                continue
+            call = st.value if isinstance(st, ast.Assign) and len(st.targets) == 1 and isinstance(st.value, ast.Call) else None
+            h = None
+            if call is not None and isinstance(call.func, ast.Attribute) and isinstance(call.func.value, ast.Name) \
+                    and call.func.value.id in ("self", CLS) and call.func.attr in methods and methods[call.func.attr] is not fn and depth < 3:
+                h = methods[call.func.attr]
+            if h is not None:
+                body = _straight_helper(h)
+                static = any(isinstance(d, ast.Name) and d.id == "staticmethod" for d in h.decorator_list)
+                params = [a.arg for a in h.args.args]
+                if not static and call.func.value.id == "self":
+                    params = params[1:]
+                elif not static:
+                    body = None
+                b = agree.bind_call(call, params) if body is not None else None
+                if b is not None and set(b) == set(params):
+                    count[0] += 1
+                    stmts_h, ret = body
+                    local = {n.id for s_ in stmts_h for n in ast.walk(s_) if isinstance(n, ast.Name) and isinstance(n.ctx, ast.Store)} | set(params)
+                    m = {nm: f"{nm}__h{count[0]}" for nm in local if nm in caller_names}
+                    pre = [ast.Assign(targets=[ast.Name(id=m.get(p_, p_), ctx=ast.Store())], value=copy.deepcopy(b[p_])) for p_ in params]
+                    new = pre + [rename(s_, m) for s_ in stmts_h] + [ast.Assign(targets=copy.deepcopy(st.targets), value=rename(ret, m))]
+                    for s_ in new:
+                        for x in ast.walk(s_):
+                            ast.copy_location(x, st)
+                        ast.fix_missing_locations(s_)
+                    chk.functions.add(f"{U.ADV}:{CLS}.{h.name}")
+                    visit(new, depth + 1)
+                    continue
+            out.append(st)
+    visit(fn.body)
+    return propagate_int_constants(out)
+
+
+def propagate_int_constants(out):
+    """locals bound once to an integer literal (dimension numbers handed to a helper) stand for that literal"""
+    stores = {}
+    for st in out:
+        for x in ast.walk(st):
+            if isinstance(x, ast.Name) and isinstance(x.ctx, ast.Store):
+                stores[x.id] = stores.get(x.id, 0) + 1
+    consts = {st.targets[0].id: st.value for st in out if isinstance(st, ast.Assign) and len(st.targets) == 1 and isinstance(st.targets[0], ast.Name)
+              and isinstance(st.value, ast.Constant) and isinstance(st.value.value, int) and not isinstance(st.value.value, bool)
+              and stores.get(st.targets[0].id) == 1}
+    if consts:
+        class Sub(ast.NodeTransformer):
+            def visit_Name(self, node):
+                if isinstance(node.ctx, ast.Load) and node.id in consts:
+                    return ast.copy_location(ast.Constant(value=consts[node.id].value), node)
+                return node
+        out = [ast.fix_missing_locations(Sub().visit(copy.deepcopy(st))) for st in out]
+    return out
+
+
+class _AsType(ast.NodeTransformer):
+    """`E.astype(int)` -> `__asint(E)` (decided by the symbolic value of E, see lagrange_points)"""
+
+    def visit_Call(self, node):
+        self.generic_visit(node)
+        if isinstance(node.func, ast.Attribute) and node.func.attr == "astype" and len(node.args) == 1 and not node.keywords \
+                and src(node.args[0]) in ("int", "np.int64", "np.int32", "np.int_", "'int'", "np.intp"):
+            return ast.copy_location(ast.Call(func=ast.Name(id="__asint", ctx=ast.Load()), args=[node.func.value], keywords=[]), node)
+        return node
+
+
+TRUNC = Function("trunc")
+
+
+def _asint(x):
+    """conversion to int of a value built from floors, integers and the integer stencil offsets is exact; otherwise it truncates"""
+    def integral(e):
+        if e.is_Integer or (e.is_Symbol and str(e) == "K"):
+            return True
+        if isinstance(e, (sp.floor, sp.ceiling)):
+            return True
+        if e.is_Add or e.is_Mul:
+            return all(integral(a) for a in e.args)
+        return False
+    return x if integral(sp.expand(x)) else TRUNC(x)
+
+
 def lagrange_points(chk):
     fn = chk.func(U.ADV, f"{CLS}._getLagrangePts")
+    q = f"{CLS}._getLagrangePts"
     g = geometry_env()
-    n = NpSym(env={"r": g["r"], "R0": g["R0"], "dt": g["dt"], "iota": g["iota"]},
-              hooks={"eta_grid[2][2] - eta_grid[2][1]": g["dz"], "eta_grid[2][1]": Symbol("z1", real=True)})
-    # the local radii and velocities (their index spaces are engine C's subject)
-    for st in fn.body:
-        if isinstance(st, ast.Assign) and src(st.targets[0]) == "r":
-            n.hooks[src(st.value)] = g["r"]
-    for nd in ast.walk(fn):
-        if isinstance(nd, ast.Subscript) and src(nd.value) == "eta_grid[3]" and isinstance(nd.slice, ast.Slice):
-            n.hooks[src(nd)] = g["v"]
+    z1 = Symbol("z1", real=True)
+    n = NpSym(env={"R0": g["R0"], "dt": g["dt"], "iota": g["iota"], "__asint": _asint}, hooks={})
+    stmts = [ast.fix_missing_locations(_AsType().visit(copy.deepcopy(st))) for st in lagrange_statements(chk, fn)]
+    # the z grid is uniform: eta_grid[2][k] = z1 + (k-1) dz; the local radii and velocities are symbols (their index spaces are
+    # engine C's subject)
+    for st in stmts:
+        for nd in ast.walk(st):
+            if isinstance(nd, ast.Subscript) and src(nd.value) == "eta_grid[2]" and isinstance(nd.slice, ast.Constant) and isinstance(nd.slice.value, int):
+                n.hooks[src(nd)] = z1 + (nd.slice.value - 1) * g["dz"]
+            if isinstance(nd, ast.Subscript) and src(nd.value) == "eta_grid[3]" and isinstance(nd.slice, ast.Slice):
+                n.hooks[src(nd)] = g["v"]
+            if isinstance(nd, ast.Subscript) and src(nd.value) == "eta_grid[0]" and isinstance(nd.slice, ast.Slice):
+                n.hooks[src(nd)] = g["r"]
     n.hooks["self._zLagrangePts"] = Symbol("nL", integer=True, positive=True)
-    n.run(fn.body, skip=lambda st: isinstance(st, ast.Assign) and src(st.targets[0]) in ("nR", "nV") or
-          (isinstance(st, ast.Assign) and src(st.targets[0]) == "self._shifts" and "ndarray" in src(st.value)))
+    alloc = lambda st: isinstance(st, ast.Assign) and isinstance(st.value, ast.Call) and src(st.value.func) in (
+        "np.ndarray", "np.empty", "np.zeros") and not isinstance(st.targets[0], ast.Subscript)
+    n.run(stmts, skip=lambda st: alloc(st) or (isinstance(st, ast.Assign) and isinstance(st.value, ast.Call) and src(st.value.func) == "len"))
     K = Symbol("K")
     r, dz, R0, dt, v, iota = g["r"], g["dz"], g["R0"], g["dt"], g["v"], g["iota"]
     bz = 1 / sp.sqrt(1 + (r * iota(r) / R0) ** 2)
     zDist = -v * bz * dt
     shifts = sp.floor(zDist / dz) + K
-    spec = {
-        "bz": (bz, "b_z = 1/sqrt(1 + (r iota(r)/R0)^2)"),
-        "dtheta": (dz * iota(r) / R0, "theta shift per cell = dz iota(r)/R0"),
-        "zDist": (zDist, "foot displacement = -v b_z(r) dt"),
-        "self._shifts": (shifts, "stencil cells = floor(displacement/dz) + stencil offsets"),
-        "self._thetaShifts": (dz * iota(r) / R0 * shifts, "theta shifts = (dz iota/R0) x cell shifts (field-line pitch)"),
-        "zDiff": (zDist - dz * shifts, "distance foot - stencil node = displacement - dz x shift (reference z cancels)"),
-    }
-    for key, (want, what) in spec.items():
-        got = n.env.get(key)
+    # every quantity is compared with the formula of the property applied to the code's own upstream quantities, so that a wrong
+    # definition is reported where it is made (and not again for everything derived from it); the absolute forms are in `facts`
+    up = lambda key, dflt: n.env.get(key) if n.env.get(key) is not None else dflt
+    spec = [
+        ("bz", lambda: bz, bz, "b_z = 1/sqrt(1 + (r iota(r)/R0)^2)"),
+        ("dtheta", lambda: dz * iota(r) / R0, dz * iota(r) / R0, "theta shift per cell = dz iota(r)/R0"),
+        ("zDist", lambda: -v * up("bz", bz) * dt, zDist, "foot displacement = -v b_z(r) dt"),
+        ("self._shifts", lambda: sp.floor(up("zDist", zDist) / dz) + K, shifts, "stencil cells = floor(displacement/dz) + stencil offsets"),
+        ("self._thetaShifts", lambda: up("dtheta", dz * iota(r) / R0) * up("self._shifts", shifts), dz * iota(r) / R0 * shifts,
+         "theta shifts = (dz iota/R0) x cell shifts (field-line pitch)"),
+        ("zDiff", lambda: up("zDist", zDist) - dz * up("self._shifts", shifts), zDist - dz * shifts,
+         "distance foot - stencil node = displacement - dz x shift (reference z cancels)"),
+    ]
+    results = ("self._shifts", "self._thetaShifts", "zDiff")
+    got_of = {key: n.env.get(key) for key, *_ in spec}
+    abs_ok = {key: (alg_equal(got_of[key], abs_want) if got_of[key] is not None else None) for key, _, abs_want, _ in spec}
+    all_results_ok = all(abs_ok[k] for k in results)
+    flagged = set()
+    for key, rel_want, abs_want, what in spec:
+        got = got_of[key]
         if got is None:
-            chk.ob("F6-lagrange-geometry", fn, key, None, f"`{key}` not extractable: {n.env.get('<undecided>' + key, 'not assigned')}",
-                   file=U.ADV, func=f"{CLS}._getLagrangePts")
+            # an intermediate local that no longer exists is not needed when the stored tables agree with the absolute formulas
+            ok_missing = True if key not in results and all_results_ok else None
+            chk.ob("F6-lagrange-geometry", fn, key, ok_missing,
+                   f"no local `{key}`; the stored tables agree with the formulas of the property" if ok_missing else
+                   f"`{key}` not extractable: {n.env.get('<undecided>' + key, 'not assigned')}", file=U.ADV, func=q)
             continue
-        ok = alg_equal(got, want)
-        chk.ob("F6-lagrange-geometry", fn, f"{key} = ...", ok, what if ok else f"`{key}` is {got}, expected {want} ({what})",
-               file=U.ADV, func=f"{CLS}._getLagrangePts", facts={"code": str(got), "spec": str(want)})
-    # stencil offsets centred on the foot: K in [-n/2+1, n/2]
+        want = rel_want()
+        ok_rel = alg_equal(got, want)
+        if abs_ok[key]:
+            ok, why = True, what
+        elif key not in results and all_results_ok:
+            ok, why = True, f"local `{key}` = {got} has another meaning than in the reference code; the stored tables agree with the formulas of the property"
+        elif ok_rel and flagged:
+            ok, why = True, f"{what} - consistent with the code's own {sorted(flagged)} (reported there)"
+        else:
+            ok = False
+            flagged.add(key)
+            why = f"`{key}` is {got}, expected {want if not ok_rel else abs_want} ({what})"
+            if got.has(TRUNC):
+                why += ": the conversion to int truncates towards zero, so for negative displacements the stencil is one cell off the floor"
+        chk.ob("F6-lagrange-geometry", fn, f"{key} = ...", ok, why, file=U.ADV, func=q,
+               facts={"code": str(got), "spec": str(want), "absolute_spec": str(abs_want), "matches_absolute": bool(abs_ok[key])})
+    # stencil offsets centred on the foot: K in [floor(-n/2)+1, floor(n/2)+1)
     ar = n.aranges.get("K")
-    okc = None
+    okc, whyc = None, "stencil offsets np.arange(lo, hi) not extractable"
     if ar and len(ar) == 2:
+        nL = n.hooks["self._zLagrangePts"]
+        p_ = Symbol("p", integer=True, positive=True)
         try:
-            okc = all(eval(src(ar[0]), {"__builtins__": {}}, {"self": _Obj(m)}) == -m // 2 + 1 and
-                      eval(src(ar[1]), {"__builtins__": {}}, {"self": _Obj(m)}) == m // 2 + 1 for m in (2, 4, 6, 8, 10))
-        except Exception:
-            okc = None
+            lo, hi = n.ev(ar[0]), n.ev(ar[1])
+            res = []
+            for nv in (2 * p_, 2 * p_ + 1):
+                dl = sp.simplify((lo - (sp.floor(-nL / 2) + 1)).subs(nL, nv))
+                dh = sp.simplify((hi - (sp.floor(nL / 2) + 1)).subs(nL, nv))
+                res.append((dl, dh))
+            if all(dl == 0 and dh == 0 for dl, dh in res):
+                okc = True
+            elif all(dl.is_number and dh.is_number for dl, dh in res):
+                okc = False
+                dl, dh = next((a, b) for a, b in res if a != 0 or b != 0)
+                whyc = (f"the stencil offsets run from {lo} to {hi} (exclusive): shifted by {dl} / {dh} cells against floor(-n/2)+1 .. floor(n/2): "
+                        "the foot no longer lies in the central cell of the stencil, the interpolation becomes one-sided")
+            else:
+                whyc = f"stencil offsets [{lo}, {hi}) not comparable with floor(-n/2)+1 .. floor(n/2)"
+        except Undecided as e:
+            whyc = f"stencil offsets: {e}"
     chk.ob("F6-stencil-centring", fn, "np.arange(-n//2+1, n//2+1)", okc,
-           "the n stencil cells are floor(foot)-n/2+1 .. floor(foot)+n/2: the foot lies in the central cell" if okc else
-           "stencil offsets are not -n/2+1 .. n/2 around the cell containing the foot", file=U.ADV, func=f"{CLS}._getLagrangePts")
+           "the n stencil cells are floor(foot)-n/2+1 .. floor(foot)+n/2: the foot lies in the central cell" if okc else whyc,
+           file=U.ADV, func=q)
     # first barycentric form with exact on-node special case
     coeffs = n.env.get("self._lagrangeCoeffs")
     zPts, zPos, zDiff = n.env.get("zPts"), n.env.get("zPos"), n.env.get("zDiff")
@@ -81,7 +260,6 @@ def lagrange_points(chk):
     if all(x is not None for x in (coeffs, zPts, zPos, zDiff, omega, lambdas)):
         want = ITE(sp.Eq(zPts, zPos), Integer(1), omega * lambdas / zDiff)
         shape_ok = isinstance(omega, sp.Basic) and omega.func == PROD and alg_equal(omega.args[0], zDiff) and str(omega.args[1]) == "axis2"
-        lam_ok = isinstance(lambdas, sp.Basic) and alg_equal(1 / lambdas - PROD(DELTA, Symbol("axis3")), 0) is not None
         # lambdas = 1/PROD(zPts_j - zPts_k + eye): in the element-wise model the pairwise difference vanishes, leaving PROD(DELTA)
         lam_ok = alg_equal(lambdas, 1 / PROD(DELTA, Symbol("axis3")))
         cond_exact = isinstance(coeffs, ITE) and isinstance(coeffs.args[0], sp.Eq)
@@ -89,24 +267,26 @@ def lagrange_points(chk):
         why = ("weights = omega lambda_j / (foot - node_j) with omega = prod_j (foot - node_j), lambda_j = 1/prod_{k!=j}(node_j - node_k), "
                "and exactly 1 on a node hit by the foot" if ok else
                f"weights are {coeffs}; omega ok={shape_ok}, lambda ok={lam_ok}, exact on-node test ok={cond_exact}")
+    elif all(x is not None for x in (coeffs, zDiff, lambdas)) and omega is None and isinstance(coeffs, ITE) \
+            and alg_equal(coeffs.args[2] * zDiff, lambdas):
+        ok = False
+        why = ("the weights are lambda_j / (foot - node_j) without the factor omega = prod_j (foot - node_j): they are not the Lagrange weights "
+               "(they do not sum to 1 unless renormalised later), and when the foot hits a node the bare 1 written there no longer comes with "
+               "zero weights on the other nodes (these used to vanish through omega = 0)")
     # the on-node test must be exact equality (a tolerance snaps near-node feet while the other weights stay non-zero)
-    wh = [c for c in ast.walk(fn) if isinstance(c, ast.Call) and src(c.func) == "np.where"]
+    wh = [c for st in stmts for c in ast.walk(st) if isinstance(c, ast.Call) and src(c.func) == "np.where"]
     if wh and ok is None:
         cnd = wh[0].args[0]
-        env = {st.targets[0].id: st.value for st in fn.body if isinstance(st, ast.Assign) and isinstance(st.targets[0], ast.Name)}
+        env = {st.targets[0].id: st.value for st in stmts if isinstance(st, ast.Assign) and isinstance(st.targets[0], ast.Name)}
         cexp = env.get(cnd.id) if isinstance(cnd, ast.Name) else cnd
-        if isinstance(cexp, ast.Call):
+        if (isinstance(cexp, ast.Call) and src(cexp.func).split(".")[-1] in ("isclose", "allclose", "less", "less_equal")) or \
+                (isinstance(cexp, ast.Compare) and not isinstance(cexp.ops[0], (ast.Eq, ast.NotEq))):
             ok = False
             why = f"the on-node special case is selected by `{src(cexp)}`, not by exact equality: a foot merely near a node gets weight 1 " \
                   "while the other weights stay non-zero (weights no longer sum to 1)"
     chk.ob("F6-barycentric-weights", fn, "self._lagrangeCoeffs = np.where(zPts == zPos, 1, omega*lambdas/zDiff)", ok, why,
-           file=U.ADV, func=f"{CLS}._getLagrangePts")
+           file=U.ADV, func=q)
     return n
-
-
-class _Obj:
-    def __init__(self, m):
-        self._zLagrangePts = m
 
 
 def sibling_geometry(chk):
@@ -114,34 +294,88 @@ def sibling_geometry(chk):
     g = geometry_env()
     r, dz, R0, iota = g["r"], g["dz"], g["R0"], g["iota"]
     pg = chk.func(U.ADV, "ParallelGradient.__init__")
-    n = NpSym(env={"r": r, "iota": iota}, hooks={"constants.iota(r)": iota(r), "constants.R0": R0})
-    bzs = [st for st in pg.body if isinstance(st, ast.Assign) and src(st.targets[0]) == "self._bz"]
-    ok = False
-    got = None
-    if bzs:
-        try:
-            got = n.ev(bzs[0].value)
-            ok = alg_equal(got, 1 / sp.sqrt(1 + (r * iota(r) / R0) ** 2))
-        except Undecided as e:
-            got = str(e)
-    chk.ob("F6-sibling-geometry", bzs[0] if bzs else pg, "ParallelGradient._bz", ok,
-           "b_z(r) has the same normal form as in the flux-surface advection" if ok else f"b_z is {got}", file=U.ADV,
-           func="ParallelGradient.__init__")
+    stmts = propagate_int_constants([st for st in pg.body if isinstance(st, (ast.Assign, ast.With))])
+    n = NpSym(env={"iota": iota}, hooks={"constants.R0": R0})
+    for st in stmts:
+        for nd in ast.walk(st):
+            if isinstance(nd, ast.Subscript) and src(nd.value) == "eta_grid[0]" and isinstance(nd.slice, ast.Slice):
+                n.hooks[src(nd)] = r
+    # `constants.iota(x)` is the rotational transform at x
+    n.env["constants.iota"] = iota
+    bzs = [st for st in stmts if isinstance(st, ast.Assign) and src(st.targets[0]) == "self._bz"]
+    n.run([st for st in stmts if not (isinstance(st, ast.Assign) and isinstance(st.value, ast.Call) and
+                                      src(st.value.func).split(".")[-1] in ("empty", "zeros", "ndarray", "SplineInterpolator1D", "Spline1D"))])
+    ok = None
+    got = n.env.get("self._bz")
+    why = f"b_z not extractable: {n.env.get('<undecided>self._bz', 'self._bz is not assigned at the top level of the constructor')}"
+    if got is not None:
+        want = 1 / sp.sqrt(1 + (r * iota(r) / R0) ** 2)
+        ok = alg_equal(got, want)
+        why = "b_z(r) has the same normal form as in the flux-surface advection" if ok else \
+            f"b_z is {got}, the flux-surface advection (and the property) use {want}: the two operators disagree about the field direction"
+    chk.ob("F6-sibling-geometry", bzs[0] if bzs else pg, "ParallelGradient._bz", ok, why, file=U.ADV, func="ParallelGradient.__init__")
     fl = chk.func(U.ADV, "fieldline")
+    params = [a.arg for a in fl.args.args]
     th, zd = sp.symbols("theta z_diff", real=True)
-    n2 = NpSym(env={"theta": th, "z_diff": zd, "r": r, "R0": R0, "iota": iota})
-    ret = [s for s in fl.body if isinstance(s, ast.Return)]
-    ok2 = False
-    got2 = None
-    if ret:
-        try:
-            got2 = n2.ev(ret[0].value)
-            ok2 = alg_equal(got2, Wrap(th + iota(r) * zd / R0))
-        except Undecided as e:
-            got2 = str(e)
+    ok2, why2 = None, "fieldline(theta, z_diff, iota, r, R0): signature or body outside the extractable fragment"
+    if params == ["theta", "z_diff", "iota", "r", "R0"]:
+        n2 = NpSym(env={"theta": th, "z_diff": zd, "r": r, "R0": R0, "iota": iota})
+        body = [s_ for s_ in fl.body if not (isinstance(s_, ast.Expr) and isinstance(s_.value, ast.Constant))]
+        ret = body[-1] if body and isinstance(body[-1], ast.Return) and body[-1].value is not None else None
+        if ret is not None and all(isinstance(s_, (ast.Assign, ast.With)) for s_ in body[:-1]):
+            n2.run(body[:-1])
+            try:
+                got2 = n2.ev(ret.value)
+                line = th + iota(r) * zd / R0
+                if alg_equal(got2, Wrap(line)):
+                    ok2 = True
+                else:
+                    ok2 = False
+                    why2 = f"field line is {got2}, expected (theta + iota(r) z_diff / R0) mod 2 pi"
+                    if not got2.has(Wrap) and got2.has(ITE) and alg_equal(_first_branch(got2), line):
+                        why2 = ("the angle theta + iota(r) z_diff/R0 is brought back to [0, 2 pi) by adding or subtracting at most one period, "
+                                "not by a modulo: when the field line winds a full poloidal turn or more over the stencil "
+                                "(|iota dz k/R0| >= 2 pi) the result stays outside the domain of the periodic theta-spline, which is then "
+                                "evaluated out of range")
+                    elif not got2.has(Wrap) and not got2.has(ITE) and alg_equal(got2, line):
+                        why2 = ("the angle theta + iota(r) z_diff/R0 is not reduced modulo 2 pi: the theta-spline is evaluated outside its "
+                                "periodic domain")
+            except Undecided as e:
+                why2 = f"field line not extractable: {e}"
     chk.ob("F6-sibling-geometry", fl, "fieldline(theta, z_diff, iota, r, R0)", ok2,
            "field line: theta + iota(r) z_diff / R0 (mod 2 pi) - the same pitch iota/R0 as the flux-surface theta shifts"
-           if ok2 else f"field line is {got2}", file=U.ADV, func="fieldline")
+           if ok2 else why2, file=U.ADV, func="fieldline")
+
+
+def _first_branch(e):
+    """the unshifted alternative of nested conditionals ITE(c, x + 2 pi, x) / ITE(c, x - 2 pi, x)"""
+    while isinstance(e, ITE):
+        e = e.args[2]
+    return e
+
+
+def _writer_diagnosis(vals, keys, want_key, want_val, congruent):
+    """what differs between the extracted table writer and the specification"""
+    if len(keys) != 1:
+        return f"writer stores {len(keys)} families of cells: {dict(vals.cells)}"
+    key, val = keys[0], vals.cells[keys[0]]
+    out = []
+    if not congruent(key[0], want_key[0]):
+        out.append(f"the value of source row i and stencil entry j goes to row {key[0]}, expected (i - shift_j) mod nz")
+    if not all(alg_equal(a, b) for a, b in zip(key[1:], want_key[1:])):
+        out.append(f"cell ({key[1]}, {key[2]}) is written for theta node k and stencil entry j")
+    if not alg_equal(val, want_val):
+        pt = val.args[0] if isinstance(val, sp.Basic) and val.func == S1 and val.args else None
+        wpt = want_val.args[0].args[0]
+        if pt is not None and not pt.has(Wrap) and pt.has(ITE) and alg_equal(_first_branch(pt), wpt):
+            out.append("the evaluation point theta_k + thetaShifts[j] is brought back to [0, 2 pi) by adding or subtracting at most one "
+                       "period, not by a modulo: thetaShifts = (iota dz/R0) x shift is unbounded, so when the field line winds a full "
+                       "poloidal turn or more the theta-spline is evaluated outside its periodic domain")
+        elif pt is not None and not pt.has(Wrap) and alg_equal(pt, wpt):
+            out.append("the evaluation point theta_k + thetaShifts[j] is not reduced modulo 2 pi")
+        else:
+            out.append(f"the stored value is {val}, expected {want_val}")
+    return "; ".join(out) or f"writer stores {dict(vals.cells)}"
 
 
 def kernels(chk):
@@ -173,7 +407,8 @@ def kernels(chk):
             and alg_equal(vals.cells[keys[0]], want_val)
         chk.ob("F6-table-writer", fn, "vals[(i - shifts[j]) % nz, k, j] = S(theta_k + thetaShifts[j])", ok,
                "the value for source row i and stencil entry j is stored at target row (i - shift_j) mod nz, with the theta "
-               "shift of the same j" if ok else f"writer stores {dict(vals.cells)}", file=U.ADVK, func="general_get_lagrange_vals",
+               "shift of the same j" if ok else _writer_diagnosis(vals, keys, want_key, want_val, congruent), file=U.ADVK,
+               func="general_get_lagrange_vals",
                facts={"key": str(keys[0]) if keys else "", "value": str(vals.cells[keys[0]]) if keys else ""})
     except Undecided as e:
         chk.ob("F6-table-writer", fn, "general_get_lagrange_vals", None, f"outside the extractable fragment: {e}", file=U.ADVK,
@@ -213,27 +448,98 @@ def step_wiring(chk):
         "self._thetaSpline.basis.degree": "deg", "self._thetaSpline.coeffs": "coeffs",
         "self._thetaSpline.basis.cubic_uniform": "cubic_uniform_splines"})
     c2 = calls["flux_advection"]
-    a = [src(x).replace(" ", "") for x in c2.args]
-    ok = a == ["*self._nPoints", "f", "self._lagrangeCoeffs[rIdx,cIdx]", "self._LagrangeVals"] or \
-        a == ["self._nPoints[0]", "self._nPoints[1]", "f", "self._lagrangeCoeffs[rIdx,cIdx]", "self._LagrangeVals"]
-    chk.ob("E2-argument-role", c2, "flux_advection(*self._nPoints, f, coeffs[rIdx,cIdx], vals)", ok,
-           "(n_theta, n_z), the field, the weights of the same (r,v) entry as the shifts, and the table" if ok else f"arguments {a}",
-           file=U.ADV, func=f"{CLS}.step")
+    from ..core import same_expr, enclosing_stmt
+    b1 = agree.bind_call(c1, [a.arg for a in kmod.func("get_lagrange_vals").args.args]) or {}
+    # flux_advection(nq, nr, f, coeffs, vals): `*self._nPoints` stands for its two components
+    actual = []
+    for x in c2.args:
+        if isinstance(x, ast.Starred) and same_expr(x.value, "self._nPoints"):
+            actual += [ast.parse("self._nPoints[0]", mode="eval").body, ast.parse("self._nPoints[1]", mode="eval").body]
+        else:
+            actual.append(x)
+    fformals = [a.arg for a in kmod.func("flux_advection").args.args]
+    call2 = ast.Call(func=c2.func, args=actual, keywords=c2.keywords)
+    b2 = None if any(isinstance(x, ast.Starred) for x in actual) else agree.bind_call(call2, fformals)
+    ok, bad = None, None
+    if b2 is not None and set(b2) == set(fformals) == {"nq", "nr", "f", "coeffs", "vals"}:
+        sh = b1.get("shifts")
+        idx = src(sh.slice) if isinstance(sh, ast.Subscript) and same_expr(sh.value, "self._shifts") else None
+        cf = b2["coeffs"]
+        cidx = src(cf.slice) if isinstance(cf, ast.Subscript) and same_expr(cf.value, "self._lagrangeCoeffs") else None
+        sizes = (same_expr(b2["nq"], "self._nPoints[0]"), same_expr(b2["nr"], "self._nPoints[1]"))
+        rest = same_expr(b2["f"], "f") and same_expr(b2["vals"], "self._LagrangeVals")
+        if all(sizes) and rest and idx is not None and cidx == idx:
+            ok = True
+        elif same_expr(b2["nq"], "self._nPoints[1]") and same_expr(b2["nr"], "self._nPoints[0]"):
+            bad = "the numbers of theta and z points are handed over in the wrong order: the kernel loops over f[j, i] with j < n_z, i < n_theta"
+        elif idx is not None and cidx is not None and cidx != idx:
+            bad = (f"the weights are those of table entry [{cidx}] while the stencil shifts and theta shifts are those of entry [{idx}]: "
+                   "weights and shifts of different (r, v) surfaces are combined")
+        elif same_expr(b2["vals"], "self._lagrangeCoeffs[rIdx, cIdx]") or same_expr(b2["coeffs"], "self._LagrangeVals"):
+            bad = "weights and value table are handed over in each other's position"
+    chk.pat("E2-argument-role", c2, "flux_advection(*self._nPoints, f, coeffs[rIdx,cIdx], vals)", ok,
+            "(n_theta, n_z), the field, the weights of the same (r,v) entry as the shifts, and the table", bad,
+            file=U.ADV, func=f"{CLS}.step")
+    # points = (theta, z); table allocated [n_z, n_theta, stencil] as the kernels index it
     init = chk.func(U.ADV, f"{CLS}.__init__")
-    t = src(init).replace(" ", "").replace("\n", "")
-    okp = "self._points=eta_grid[1:3]" in t and "self._nPoints=(self._points[0].size,self._points[1].size)" in t and \
-        "self._LagrangeVals=np.ndarray([self._nPoints[1],self._nPoints[0],self._zLagrangePts])" in t
-    chk.ob("E2-point-order", init, "points = (theta, z); table [n_z, n_theta, stencil]", okp,
-           "the slice is (theta, z); the table is allocated [z, theta, stencil] as the kernels index it" if okp else
-           "point order or table allocation changed", file=U.ADV, func=f"{CLS}.__init__")
-    # loop: one spline per z column i, interpolated from f[:, i] before the table row is produced
-    lp = [n for n in fn.body if isinstance(n, ast.For)]
-    okl = len(lp) == 1 and src(lp[0].iter).replace(" ", "") == "range(self._nPoints[1])" and \
-        "self._interpolator.compute_interpolant(f[:,i],self._thetaSpline)" in src(lp[0]).replace(" ", "").replace("\n", "") and \
-        lp[0].lineno < c2.lineno
-    chk.ob("E2-interpolate-before-evaluate", lp[0] if lp else fn, "for i in range(n_z): interpolate f[:, i]; fill table", okl,
-           "every z column is interpolated along theta and entered into the table before the weighted sum overwrites f" if okl else
-           "the table is not filled column by column before the update", file=U.ADV, func=f"{CLS}.step")
+    vals = {}
+    for st in init.body:
+        if isinstance(st, ast.Assign) and len(st.targets) == 1 and src(st.targets[0]) in ("self._points", "self._nPoints", "self._LagrangeVals"):
+            vals.setdefault(src(st.targets[0]), []).append(st)
+    okp, badp = None, None
+    if all(len(vals.get(k, [])) == 1 for k in ("self._points", "self._nPoints", "self._LagrangeVals")):
+        pts, npt, tab = (vals[k][0].value for k in ("self._points", "self._nPoints", "self._LagrangeVals"))
+        p_ok = same_expr(pts, "eta_grid[1:3]") or same_expr(pts, "(eta_grid[1], eta_grid[2])") or same_expr(pts, "[eta_grid[1], eta_grid[2]]")
+        n_ok = same_expr(npt, "(self._points[0].size, self._points[1].size)") or same_expr(npt, "(len(self._points[0]), len(self._points[1]))")
+        shape = tab.args[0] if isinstance(tab, ast.Call) and src(tab.func) in ("np.ndarray", "np.empty", "np.zeros") and tab.args else None
+        t_ok = shape is not None and (same_expr(shape, "[self._nPoints[1], self._nPoints[0], self._zLagrangePts]") or
+                                      same_expr(shape, "(self._nPoints[1], self._nPoints[0], self._zLagrangePts)"))
+        if p_ok and n_ok and t_ok:
+            okp = True
+        elif p_ok and n_ok and shape is not None and (same_expr(shape, "[self._nPoints[0], self._nPoints[1], self._zLagrangePts]") or
+                                                      same_expr(shape, "(self._nPoints[0], self._nPoints[1], self._zLagrangePts)")):
+            badp = ("the value table is allocated [n_theta, n_z, stencil] but the kernels index it [z row, theta, stencil]: rows beyond "
+                    "min(n_theta, n_z) are out of range or alias other entries")
+        elif p_ok and same_expr(npt, "(self._points[1].size, self._points[0].size)"):
+            badp = "self._nPoints is (n_z, n_theta) while the slice handed to step is (theta, z): every size test and loop bound is transposed"
+        elif same_expr(pts, "eta_grid[2:4]") or same_expr(pts, "eta_grid[0:2]") or same_expr(pts, "eta_grid[:2]"):
+            badp = f"the advection surface is spanned by `{src(pts)}`, not by (theta, z) = eta_grid[1:3]"
+    chk.pat("E2-point-order", vals.get("self._LagrangeVals", [init])[0], "points = (theta, z); table [n_z, n_theta, stencil]", okp,
+            "the slice is (theta, z); the table is allocated [z, theta, stencil] as the kernels index it", badp,
+            file=U.ADV, func=f"{CLS}.__init__")
+    # loop: one spline per z column i, interpolated from f[:, i] before the table row is produced; the update runs after the loop
+    lp = None
+    p_ = parent(enclosing_stmt(c1))
+    while p_ is not None and p_ is not fn:
+        if isinstance(p_, ast.For):
+            lp = p_
+        p_ = parent(p_)
+    okl, badl = None, None
+    if lp is not None and isinstance(lp.target, ast.Name) and parent(lp) is fn:
+        iv = lp.target.id
+        ci = [n for n in ast.walk(lp) if isinstance(n, ast.Call) and isinstance(n.func, ast.Attribute) and n.func.attr == "compute_interpolant"]
+        in_loop = any(n is c2 for n in ast.walk(lp))
+        pos = lambda n: (n.lineno, n.col_offset)
+        if in_loop:
+            badl = ("flux_advection overwrites f inside the loop over the z columns: the columns interpolated afterwards are already "
+                    "advected values")
+        elif len(ci) == 1 and len(ci[0].args) == 2 and same_expr(ci[0].func.value, "self._interpolator") and same_expr(ci[0].args[1], "self._thetaSpline"):
+            col = ci[0].args[0]
+            i_ok = same_expr(b1.get("i"), iv) if b1.get("i") is not None else False
+            if same_expr(lp.iter, "range(self._nPoints[1])") and same_expr(col, f"f[:, {iv}]") and pos(ci[0]) < pos(c1) and i_ok \
+                    and pos(lp) < pos(c2):
+                okl = True
+            elif same_expr(lp.iter, "range(self._nPoints[0])"):
+                badl = "the loop runs over the number of theta points, not over the n_z columns of the slice: columns are missed or out of range"
+            elif same_expr(col, f"f[{iv}, :]") or same_expr(col, f"f[{iv}]"):
+                badl = f"`{src(col)}` interpolates a row of the slice (fixed theta, along z) with the theta spline, not the z column {iv} along theta"
+            elif pos(ci[0]) > pos(c1) and same_expr(col, f"f[:, {iv}]"):
+                badl = "the table row of column i is produced before the spline of column i is computed: it holds the previous column's values"
+        elif not ci:
+            badl = "the theta spline is never recomputed inside the loop: every table row is produced from the same (stale) spline"
+    chk.pat("E2-interpolate-before-evaluate", lp if lp is not None else fn, "for i in range(n_z): interpolate f[:, i]; fill table", okl,
+            "every z column is interpolated along theta and entered into the table before the weighted sum overwrites f", badl,
+            file=U.ADV, func=f"{CLS}.step")
     # precomputed tables are not modified by the step
     muts = [m for m in lints.shared_state_mutations(fn, lambda s: s.startswith("self._") and s.split("[")[0] in
                                                     ("self._shifts", "self._thetaShifts", "self._lagrangeCoeffs"))]
@@ -258,5 +564,5 @@ def run(chk):
     flux_index_spaces(chk)
     from .. import lints as _l
     _l.check_cache_keys(chk, U.ADV, "FluxSurfaceAdvection")
-    chk.floor("F6-", 12)
-    chk.floor("C-", 8)
+    chk.floor("F6-", 10)
+    chk.floor("C-", 6)
